@@ -17,6 +17,7 @@ import (
 	"github.com/form3tech-oss/f1/v2/internal/verifshim/vrt"
 	"github.com/form3tech-oss/f1/v2/internal/verifshim/vtime"
 	"github.com/form3tech-oss/f1/v2/pkg/f1"
+	"github.com/form3tech-oss/f1/v2/pkg/f1/scenarios"
 	f1testing "github.com/form3tech-oss/f1/v2/pkg/f1/testing"
 )
 
@@ -225,6 +226,99 @@ func suite() hlib.Suite {
 	}}
 }
 
-func suites(string) []hlib.Suite { return []hlib.Suite{suite()} }
+// secondTimeSuite (C03): the ceiling and the ids on the second occasion - a second users stage of a config file after a
+// first one that ended by its duration (the limit is reached in the second), and a second run of the same registered
+// combined scenario in one process.
+func secondTimeSuite() hlib.Suite {
+	return hlib.Suite{Name: "C03/second-users-stage+second-run-of-one-combined-scenario", Run: func(r *hlib.Rec) {
+		checkIDs := func(what, input string, ids []int, limit uint64) {
+			if uint64(len(ids)) != limit {
+				kind := "short"
+				if uint64(len(ids)) > limit {
+					kind = "exceeded"
+				}
+				r.Fail("C03/run-ceiling", kind+"/"+what, fmt.Sprintf("%d invocations with max-iterations %d (the trigger keeps requesting)", len(ids), limit), input)
+			}
+			sorted := append([]int(nil), ids...)
+			sort.Ints(sorted)
+			for i, id := range sorted {
+				if id != i+1 {
+					if len(sorted) > 24 {
+						sorted = sorted[:24]
+					}
+					r.Fail("C03/run-ids", "not-1..k/"+what, fmt.Sprintf("observed ids (sorted, first 24) %v", sorted), input)
+					break
+				}
+			}
+		}
+		for _, conc := range []int{1, 2, 3} {
+			if !r.Mine() {
+				continue
+			}
+			r.Eval()
+			limit := uint64(conc * 150)
+			input := fmt.Sprintf("config file: users for 100ms, constant 1/100ms for 100ms, users for 400ms; concurrency=%d max-iterations=%d body=1ms (the first users stage ends by its duration at about %d iterations)", conc, limit, conc*80)
+			r.SampleCase(input)
+			var ids []int
+			rs := &hlib.RunSpec{Mode: "file", Quiet: true, CompletionTimeout: 2 * time.Second,
+				FileYAML: fmt.Sprintf("scenario: s\nlimits:\n  max-duration: 5s\n  concurrency: %d\n  max-iterations: %d\n  ignore-dropped: true\nstages:\n- duration: 100ms\n  mode: users\n- duration: 100ms\n  mode: constant\n  rate: 1/100ms\n  jitter: 0\n  distribution: none\n- duration: 400ms\n  mode: users\n", conc, limit)}
+			rs.ScenarioFn = func(*f1testing.T) f1testing.RunFn {
+				return func(t *f1testing.T) {
+					id, _ := strconv.Atoi(t.Iteration)
+					ids = append(ids, id)
+					vtime.Sleep(time.Millisecond)
+				}
+			}
+			res := hlib.RunOnce(rs, -1, 0, 120*time.Second)
+			if res.BuildErr != nil || res.Out.Status != vrt.StOK {
+				r.Fail("C03/run-broken", "file-two-users-stages", fmt.Sprint(res.BuildErr, res.Out.Status, res.Out.Detail, res.Out.Crash), input)
+				continue
+			}
+			checkIDs("file-two-users-stages", input, ids, limit)
+			r.Distinct(input)
+		}
+		for _, mode := range []string{"constant", "users"} {
+			for _, limit := range []uint64{3, 5} {
+				if !r.Mine() {
+					continue
+				}
+				r.Eval()
+				input := fmt.Sprintf("one registered combined scenario (f1.CombineScenarios of two parts) run twice in one process: mode=%s concurrency=2 max-iterations=%d", mode, limit)
+				r.SampleCase(input)
+				var ids []int
+				part := func(*f1testing.T) f1testing.RunFn {
+					return func(t *f1testing.T) {
+						id, _ := strconv.Atoi(t.Iteration)
+						ids = append(ids, id)
+						vtime.Sleep(time.Millisecond)
+					}
+				}
+				scs := scenarios.New().Add(&scenarios.Scenario{Name: "s", ScenarioFn: f1.CombineScenarios(part, func(*f1testing.T) f1testing.RunFn { return func(*f1testing.T) {} })})
+				for runNo := 1; runNo <= 2; runNo++ {
+					ids = nil
+					rs := &hlib.RunSpec{Mode: mode, Quiet: true, CompletionTimeout: 2 * time.Second, Scenarios: scs,
+						Opts: options.RunOptions{MaxDuration: 5 * time.Second, Concurrency: 2, MaxIterations: limit, IgnoreDropped: true}}
+					if mode == "constant" {
+						rs.Flags = map[string]string{"rate": "3/100ms", "distribution": "none"}
+					}
+					res := hlib.RunOnce(rs, -1, 0, 120*time.Second)
+					if res.BuildErr != nil || res.Out.Status != vrt.StOK {
+						r.Fail("C03/run-broken", "combined-twice", fmt.Sprint(res.BuildErr, res.Out.Status, res.Out.Detail, res.Out.Crash), input)
+						break
+					}
+					checkIDs(fmt.Sprintf("combined-run-%d", runNo), input+fmt.Sprintf(" (run %d)", runNo), ids, limit)
+				}
+				r.Distinct(input)
+			}
+		}
+	}}
+}
+
+func suites(string) []hlib.Suite {
+	if *prop == "C03" {
+		return []hlib.Suite{suite(), secondTimeSuite()}
+	}
+	return []hlib.Suite{suite()}
+}
 
 func main() { hlib.EnumMain(*prop, suites) }
